@@ -160,10 +160,13 @@ func cmdCheck(args []string) int {
 	// obligations known to discharge quickly on the unchanged tree get a last,
 	// unhurried attempt before a timeout is reported as a violation
 	cfg.mustDecide = map[string]bool{}
+	cfg.slowDecide = map[string]bool{}
 	if data, err := os.ReadFile(filepath.Join(*verif, "baseline", *prop+".obligations")); err == nil {
 		for _, ln := range strings.Split(string(data), "\n") {
 			if f := strings.Fields(ln); len(f) == 1 && !strings.HasPrefix(ln, "#") {
 				cfg.mustDecide[f[0]] = true
+			} else if len(f) == 2 && f[0] == "slow" {
+				cfg.slowDecide[f[1]] = true
 			}
 		}
 	}
